@@ -19,8 +19,12 @@ type PubFunc func(context.Context, cid.Cid) error
 
 // Republisher manages when to publish a given entry.
 type Republisher struct {
-	pubfunc          PubFunc
+	pubfunc PubFunc
+	// update holds the latest value that has not been picked up by run yet.
+	// updateLock makes replacing that value (drain, then send) atomic with
+	// respect to run taking it, see Update.
 	update           chan cid.Cid
+	updateLock       sync.Mutex
 	immediatePublish chan chan struct{}
 
 	cancel    func()
@@ -84,17 +88,19 @@ func (rp *Republisher) Close() error {
 // Update the current value. The value will be published after a delay but each
 // consecutive call to Update may extend this delay up to TimeoutLong.
 func (rp *Republisher) Update(c cid.Cid) {
+	// Replace any value that has not been picked up yet. The lock keeps the
+	// channel from being observed empty between the drain and the send: a
+	// WaitPub or Close served in that window would find nothing to publish and
+	// report success although neither the old nor the new value is published.
+	rp.updateLock.Lock()
+	defer rp.updateLock.Unlock()
 	select {
 	case <-rp.update:
-		select {
-		case rp.update <- c:
-		default:
-			// Don't try again. If we hit this case, there's a
-			// concurrent publish and we can safely let that
-			// concurrent publish win.
-		}
-	case rp.update <- c:
+	default:
 	}
+	// Cannot block: the channel has room for one value, it was just drained,
+	// and other senders are excluded by the lock.
+	rp.update <- c
 }
 
 // Run contains the core logic of the `Republisher`. It calls the user-defined
@@ -161,10 +167,12 @@ func (rp *Republisher) run(ctx context.Context, timeoutShort, timeoutLong time.D
 			continue
 		case waiter = <-immediatePublish:
 			// Make sure to grab the *latest* value to publish.
+			rp.updateLock.Lock()
 			select {
 			case toPublish = <-rp.update:
 			default:
 			}
+			rp.updateLock.Unlock()
 
 			// Avoid publishing duplicate values
 			if lastPublished.Equals(toPublish) {
